@@ -44,6 +44,33 @@ def clock(t):
 # ---------------------------------------------------------------------------
 # serialization paths
 # ---------------------------------------------------------------------------
+class DbFiles:
+  """Per-case directory for SQLite files.
+
+  Placed on /dev/shm when available: every SQLite commit fsyncs, which costs
+  ~20 ms on the sandbox disk and nothing on tmpfs; it is still a database
+  *file* that outlives the servicer object.
+  """
+
+  def __init__(self):
+    self.dir = None
+
+  def path(self, name):
+    if self.dir is None:
+      import os
+      import tempfile
+      base = '/dev/shm' if os.access('/dev/shm', os.W_OK) else None
+      self.dir = tempfile.mkdtemp(prefix='verif-c13-', dir=base)
+    import os
+    return os.path.join(self.dir, name)
+
+  def close(self):
+    if self.dir is not None:
+      import shutil
+      shutil.rmtree(self.dir, ignore_errors=True)
+      self.dir = None
+
+
 class Transport:
   """Carries a designer dump to the next instance the way a deployment does."""
 
@@ -82,7 +109,7 @@ class Transport:
     from vizier._src.service import vizier_client
     from vizier.service import pyvizier as svz
     if self._tmp is None:
-      self._tmp = svc.TmpFiles()
+      self._tmp = DbFiles()
       self._dbpath = self._tmp.path('c13.db')
       s = svc.make_servicer('sqlfile', dbpath=self._dbpath)
       try:
@@ -278,21 +305,31 @@ def value():
                 allow_infinity=False).map(lambda v: round(v, 3)))
 
 
-def feedback(n_values=1, infeasible=True, weights=(6, 1, 1, 2)):
+def chance(percent):
+  """Boolean strategy, True with the given probability (no boundary bias)."""
+  # the draw is bit-mixed: Hypothesis favours the boundary values of integer
+  # ranges and the first elements of sampled_from lists, which would distort
+  # the intended shares
+  return st.integers(0, 2 ** 32 - 1).map(
+      lambda x: (((x + 12345) * 2654435761 % 2 ** 32) >> 8) % 100 < percent)
+
+
+def feedback(n_values=1, infeasible=True, weights=(6, 1, 1, 2), inf0=True):
   """One feedback item for one pending trial ('skip' leaves it ACTIVE)."""
   vals = st.lists(value(), min_size=n_values, max_size=n_values)
   ok = st.tuples(st.just('ok'), vals).map(list)
   opts = [ok] * weights[0]
   if infeasible:
     opts += [st.tuples(st.just('inf'), vals).map(list)] * weights[1]
-    opts += [st.just(['inf0'])] * weights[2]
+    if inf0:
+      opts += [st.just(['inf0'])] * weights[2]
   opts += [st.just(['skip'])] * weights[3]
   return st.one_of(*opts)
 
 
 @st.composite
 def steps(draw, n_values=1, infeasible=True, min_steps=3, max_steps=12,
-          paths=PATHS, p_restart=0.45, max_count=5):
+          paths=PATHS, p_restart=0.45, max_count=5, inf0=True):
   """Batch-size sequence x feedback x restart mask (with path per restart)."""
   n = draw(st.integers(min_steps, max_steps))
   # the mask style is drawn first so that "every step", "none" and sparse
@@ -302,7 +339,7 @@ def steps(draw, n_values=1, infeasible=True, min_steps=3, max_steps=12,
   out = []
   for i in range(n):
     count = draw(st.integers(1, max_count))
-    fb = draw(st.lists(feedback(n_values, infeasible), min_size=0,
+    fb = draw(st.lists(feedback(n_values, infeasible, inf0=inf0), min_size=0,
                        max_size=8))
     if style == 'all':
       r = True
@@ -311,9 +348,9 @@ def steps(draw, n_values=1, infeasible=True, min_steps=3, max_steps=12,
     elif style == 'late':
       r = i >= n // 2 and draw(st.booleans())
     elif style == 'dense':
-      r = draw(st.integers(0, 3)) > 0
+      r = draw(chance(75))
     else:
-      r = draw(st.integers(0, 99)) < int(p_restart * 100 / 2)
+      r = draw(chance(int(p_restart * 100 / 2)))
     path = draw(st.sampled_from(list(paths))) if r else None
     out.append({'count': count, 'fb': fb, 'restart': path,
                 'dt': draw(st.sampled_from([1, 1, 7, 3600, 86400]))})
@@ -331,6 +368,38 @@ def seed(none_share=True):
   if none_share:
     opts.append(st.none())
   return st.one_of(*opts)
+
+
+def tame(spec):
+  """Maps extreme DOUBLE bounds of a drawn spec into the range in which the
+  (float32 based) parameter converters of the designers still work.
+
+  Astronomic bounds make the live designer itself fail (converter overflow,
+  a C15 matter); C13 only compares a live and a restarted instance, so such
+  cases would be wasted.  The mapping is a deterministic function of the
+  drawn spec (no rejection).
+  """
+  spec = copy.deepcopy(spec)
+  for p in spec['params']:
+    if p['kind'] != 'DOUBLE':
+      continue
+    lo, hi = p['lo'], p['hi']
+    changed = False
+    if max(abs(lo), abs(hi)) > 1e12:
+      k = max(abs(lo), abs(hi)) / 1e6
+      lo, hi, changed = lo / k, hi / k, True
+    if p.get('scale') in ('LOG', 'REVERSE_LOG'):
+      if lo < 1e-6:
+        lo, changed = 1e-6 * (1 + (lo * 1e150) % 1), True
+      if hi / lo > 1e8:
+        hi, changed = lo * 1e6, True
+      if hi <= lo:
+        hi, changed = lo * 2, True
+    if changed:
+      p['lo'], p['hi'] = lo, hi
+      if 'default' in p:
+        p['default'] = lo
+  return spec
 
 
 def grid_size(spec, resolution=10):
